@@ -44,7 +44,7 @@ def lift_fork(st, sk, n_pc, n0, i, terms, rng, pattern=None, guards=()):
         import os
         if os.environ.get("PYVC_DEBUG"):
             print("LIFT", i, "consts", [str(c) for c in consts.values()], "\n   ", body)
-        st.assume(ty.FA([i], body, patterns=[pattern] if pattern is not None else None))
+        st.assume(ty.FA([i], body, patterns=[pattern] if pattern is not None else None, qid="lifted"))
     return [sub(t) if isinstance(t, z3.ExprRef) else t for t in terms]
 
 
@@ -140,6 +140,11 @@ def _symbolic_comp(ex, st, e, kind, g, it):
     from .symex import Out
     from .state import Frame
     seq = as_seq(ex, st, it, e)
+    if not ex.feasible(st, seq.len > 0):
+        # the iterable is empty on this path: the body is never evaluated
+        empty = {"list": PyList([]), "gen": GenV(items=[]), "dict": PyDict({})}.get(kind)
+        if empty is not None:
+            return [Out("val", empty, st)]
     i = z3.Int(ty.fresh_name("ci"))
     n0 = fresh_counter()
     s1 = st.fork()
@@ -171,12 +176,19 @@ def _symbolic_comp(ex, st, e, kind, g, it):
             disj.append(d_)
         cond = z3.And(cond, z3.Or(*disj) if len(disj) > 1 else disj[0])
     if kind == "dict":
-        raise _U("dict comprehension over a symbolic sequence", e)
+        return _symbolic_dict_comp(ex, st, e, s1, seq, i, cond, n0, n_pc0, nd0)
     s1.assume(cond)
     npc1 = len(s1.decisions)
-    ov = ex.eval(e.elt, s1)
-    if any(o.kind != "val" for o in ov) or not ov:
-        raise _U("comprehension body raises on a symbolic element", e)
+    ov_all = ex.eval(e.elt, s1)
+    # the body may raise on some element (a callee's exceptional outcome): the comprehension then raises, in the unchanged state (the body
+    # is pure); that fork - its Skolem index is "some element" - is the exceptional outcome.  The normal outcome assumes that no element
+    # raises: the forks that return a value carry the negated raise conditions among their facts, which are lifted to all indices below.
+    raised = [o for o in ov_all if o.kind == "raise"]
+    for o in raised:
+        o.st.frames.pop()
+    ov = [o for o in ov_all if o.kind == "val"]
+    if any(o.kind not in ("val", "raise") for o in ov_all) or not ov:
+        raise _U("comprehension body does not yield a value on a symbolic element", e)
     for o in ov:
         if any(not (k in heap0 and heap0[k].eq(a)) for k, a in o.st.heap.items() if k in heap0):
             raise _U("comprehension body writes the heap", e)
@@ -212,12 +224,47 @@ def _symbolic_comp(ex, st, e, kind, g, it):
     else:
         r = filtered(ex, st, i, seq.len, cond, t, comps, src_arrs=seq.arrs)
     if kind == "list":
-        return [Out("val", r, st)]
+        return [Out("val", r, st)] + raised
     if kind == "gen":
-        return [Out("val", GenV(seq=r), st)]
+        return [Out("val", GenV(seq=r), st)] + raised
     if kind == "set":
-        return set_of(ex, st, r, e)
+        return set_of(ex, st, r, e) + raised
     raise _U("comprehension kind", e)
+
+
+def _symbolic_dict_comp(ex, st, e, s1, seq, i, cond, n0, n_pc0, nd0):
+    """{key(x): value(x) for x in seq [if cond]} over a symbolic sequence: the mapping whose domain is the set of keys that occur and whose
+    value at a key is the value of its LAST occurrence (explicit witness function); the key order is left unspecified (some enumeration)."""
+    from .symex import Out
+    from . import pdlib
+    s1.assume(cond)
+    ok = ex.eval(e.key, s1)
+    if len(ok) != 1 or ok[0].kind != "val":
+        raise _U("dict comprehension key forks or raises on a symbolic element", e)
+    ovs = ex.eval(e.value, ok[0].st)
+    if len(ovs) != 1 or ovs[0].kind != "val":
+        raise _U("dict comprehension value forks or raises on a symbolic element", e)
+    kv = ex.coerce(ty.Id, ok[0].val, e)
+    vv = ex.to_storable(ovs[0].val)
+    vt = ty.type_of(vv)
+    if vt is ty.Int:
+        vt, vv = ty.Real, ty.to_real(vv)
+    if vt is None:
+        raise _U(f"dict comprehension value of unknown sort: {vv!r}", e)
+    rng = z3.And(i >= 0, i < seq.len)
+    lifted = lift_fork(st, ovs[0].st, n_pc0, n0, i, [kv] + list(ty.pack(vt, vv)), rng, guards=list(ovs[0].st.decisions[nd0:]) + [cond])
+    key_i, val_i = lifted[0], lifted[1:]
+    at = lambda f, x: z3.substitute(f, (i, x))
+    dom = z3.Const(ty.fresh_name("dcdom"), z3.ArraySort(ty.IdSort, z3.BoolSort()))
+    arrs = [z3.Const(ty.fresh_name("dcval"), z3.ArraySort(ty.IdSort, c.sort())) for c in val_i]
+    lp = z3.Function(ty.fresh_name("dclast"), ty.IdSort, z3.IntSort())
+    k, j = z3.Const(ty.fresh_name("dk"), ty.IdSort), z3.Int(ty.fresh_name("dj"))
+    inr = lambda x: z3.And(x >= 0, x < seq.len, at(cond, x))
+    st.assume(ty.FA([i], z3.Implies(inr(i), z3.And(z3.Select(dom, key_i), lp(key_i) >= i)), patterns=[ty.sel(a, i) for a in seq.arrs[:1] if not (z3.is_quantifier(a) and a.is_lambda())] or None))
+    st.assume(ty.FA([k], z3.Implies(z3.Select(dom, k), z3.And(inr(lp(k)), at(key_i, lp(k)) == k, *[z3.Select(a, k) == at(v, lp(k)) for a, v in zip(arrs, val_i)])),
+                    patterns=[z3.Select(dom, k)]))
+    keys = pdlib.enumerate_domain(ex, st, dom, "dckeys")
+    return [Out("val", ty.MapV(ty.Id, vt, dom, arrs, keys), st)]
 
 
 def filtered(ex, st, i, n, cond, t, comps, src_arrs=()):
@@ -382,11 +429,47 @@ def sorted_by_key(ex, st, v, key, reverse, node):
     return r
 
 
+_PERM = {}
+
+
+def perm_fns(arr):
+    """index maps of a rearrangement, one pair of uninterpreted functions per array sort, keyed on the result's first component array"""
+    k = arr.sort().name()
+    if k not in _PERM:
+        _PERM[k] = (z3.Function(f"perm[{k}]", arr.sort(), z3.IntSort(), z3.IntSort()), z3.Function(f"perm_inv[{k}]", arr.sort(), z3.IntSort(), z3.IntSort()))
+    return _PERM[k]
+
+
+def sorted_tuples(ex, st, v, reverse, node):
+    """sorted(list of numeric tuples[, reverse=True]) (A-LIB): a rearrangement of the input in non-decreasing (non-increasing) lexicographic order"""
+    import ast as _ast
+    from .lib import tuple_order
+    arrs = [z3.Const(ty.fresh_name("sorted"), a.sort()) for a in v.arrs]
+    r = ty.SeqV(v.elem, arrs, v.len)
+    P, Q = perm_fns(arrs[0])
+    j, i = z3.Int(ty.fresh_name("pj")), z3.Int(ty.fresh_name("pi"))
+    same = lambda x, y: z3.And(*[ty.sel(a, x) == ty.sel(b, y) for a, b in zip(arrs, v.arrs)])
+    st.assume(ty.FA([j], z3.Implies(z3.And(j >= 0, j < r.len), z3.And(P(arrs[0], j) >= 0, P(arrs[0], j) < v.len, same(j, P(arrs[0], j)), Q(arrs[0], P(arrs[0], j)) == j)),
+                    patterns=[ty.sel(arrs[0], j)]))
+    st.assume(ty.FA([i], z3.Implies(z3.And(i >= 0, i < v.len), z3.And(Q(arrs[0], i) >= 0, Q(arrs[0], i) < r.len, P(arrs[0], Q(arrs[0], i)) == i, same(Q(arrs[0], i), i))),
+                    patterns=[Q(arrs[0], i), ty.sel(v.arrs[0], i)]))
+    a, b = z3.Int(ty.fresh_name("sa")), z3.Int(ty.fresh_name("sb"))
+    ordered = tuple_order(ex, st, _ast.GtE() if reverse else _ast.LtE(), r.at(a), r.at(b), node)
+    st.assume(ty.FA([a, b], z3.Implies(z3.And(a >= 0, a < b, b < r.len), ty.to_bool(ordered)),
+                    patterns=[z3.MultiPattern(ty.sel(arrs[0], a), ty.sel(arrs[0], b))]))
+    return r
+
+
 def sorted_(ex, st, args, kwargs, node):
     v = args[0]
     from .lib import SymSet
     if isinstance(v, GenV) and v.seq is not None:
         v = v.seq
+    if isinstance(v, ty.SeqV) and isinstance(v.elem, ty.TupT) and set(kwargs) <= {"reverse"} and all(t in (ty.Real, ty.Int) for t in v.elem.items):
+        rev = kwargs.get("reverse", False)
+        if not isinstance(rev, bool):
+            raise _U("sorted with symbolic reverse", node)
+        return _out(sorted_tuples(ex, st, v, rev, node), st)
     if "key" in kwargs and isinstance(v, ty.SeqV):
         rev = kwargs.get("reverse", False)
         if not isinstance(rev, bool):
